@@ -67,3 +67,40 @@ void h_B_Data_write(void)
   }
   VF_CANARY();
 }
+
+/* ---------------------------------------------------------------- Points::write alone, at most 2 points: a small unit whose bounds do
+ * not depend on how the function groups its ostream::write calls (one call per float, per point or per frame) */
+void h_B_Points_write(void)
+{
+  size_t P = nondet_size_t();
+  __CPROVER_assume(P <= NB);
+  struct Points *pp = (struct Points *)vf_alloc(sizeof(*pp));
+  pp->_points.size = P;
+  pp->_points.data = (struct Point *)vf_alloc(NB * sizeof(struct Point));
+  for (size_t j = 0; j < NB; ++j)
+    if (j < P) {
+      pp->_points.data[j]._data.size = 4;
+      pp->_points.data[j]._data.data = (float *)vf_alloc(4 * sizeof(float));
+    }
+  vf_stream *f = vf_mk_ostream(8 + NB * 16);
+  size_t p0 = nondet_size_t();
+  __CPROVER_assume(p0 <= 8);
+  f->pos = (long)p0;
+  f->len = p0;
+  unsigned char before = f->buf[vf_gb < 8 + NB * 16 ? vf_gb : 0];
+  vf_fault_enabled = 0;
+  vf_exc = 0;
+  Points__write(pp, f);
+  /*@ C01 C03 C14 : B_Points_write.sixteen-bytes-per-point */
+  __CPROVER_assert(vf_exc == 0 && !f->fail && (size_t)f->pos == p0 + 16 * P && f->len == (size_t)f->pos, "16 bytes per point");
+  /*@ C14 : B_Points_write.bytes-before-untouched */
+  __CPROVER_assert(!(vf_gb < p0) || f->buf[vf_gb] == before, "nothing before the start position is written");
+  if (vf_gj < P) {
+    size_t o = p0 + 16 * vf_gj;
+    const float *d = pp->_points.data[vf_gj]._data.data;
+    /*@ C01 C03 C12 C14 : B_Points_write.point-j-is-its-four-floats */
+    __CPROVER_assert(FL(o) == vf_bits_of(d[0]) && FL(o + 4) == vf_bits_of(d[1]) && FL(o + 8) == vf_bits_of(d[2]) && FL(o + 12) == vf_bits_of(d[3]),
+                     "every point - whatever its residual - is written as its x y z residual");
+  }
+  VF_CANARY();
+}
